@@ -137,6 +137,63 @@ def inline_expr(repo, cls, module, e, depth=0, log=None):
     return inline_expr(repo, cls, module, new, depth + 1, log)
 
 
+def _tail_inline(repo, cls, module, stmts, log, depth=0):
+    """`return helper(a, b)` where helper is a private function/method of several statements and the arguments are
+    plain names/constants/attributes: replaced by the helper's body with the arguments substituted (the helper's
+    returns become the caller's).  Only helpers that never rebind their parameters and define no inner scopes."""
+    out, changed = [], False
+    for st in stmts:
+        new = None
+        if isinstance(st, ast.Return) and isinstance(st.value, ast.Call) and depth < MAX_DEPTH:
+            call = st.value
+            c = _callee(repo, cls, module, call)
+            fname = call.func.attr if isinstance(call.func, ast.Attribute) else getattr(call.func, "id", "")
+            if c is not None and fname.startswith("_") and not fname.startswith("__"):
+                hfn, drop = c
+                simple = all(isinstance(a, (ast.Name, ast.Constant)) or
+                             (isinstance(a, ast.Attribute) and isinstance(a.value, ast.Name)) for a in call.args) and \
+                    all(isinstance(k.value, (ast.Name, ast.Constant)) for k in call.keywords)
+                binding = _binding(hfn, call, drop) if simple else None
+                body = [b for b in hfn.body if not (isinstance(b, ast.Expr) and isinstance(b.value, ast.Constant))]
+                stores = {n.id for b in body for n in ast.walk(b) if isinstance(n, ast.Name) and isinstance(n.ctx, ast.Store)}
+                inner = any(isinstance(n, (ast.FunctionDef, ast.Lambda, ast.ClassDef, ast.Yield, ast.YieldFrom)) for b in body for n in ast.walk(b))
+                ends_ok = bool(body) and isinstance(body[-1], (ast.Return, ast.Raise, ast.Try, ast.If))
+                if binding is not None and body and not (stores & set(binding)) and not inner and ends_ok \
+                        and thin_return(hfn) is None:
+                    new = [_Sub(binding).visit(clone(b)) for b in body]      # statements keep their own positions
+                    if log is not None:
+                        log.append(hfn.name)
+                    new, _ = _tail_inline(repo, cls, module, new, log, depth + 1)
+        if new is not None:
+            out += new
+            changed = True
+            continue
+        for fld in ("body", "orelse", "finalbody"):
+            sub = getattr(st, fld, None)
+            if isinstance(sub, list) and sub and isinstance(sub[0], ast.stmt):
+                sub2, ch = _tail_inline(repo, cls, module, sub, log, depth)
+                if ch:
+                    st = copy.copy(st)
+                    setattr(st, fld, sub2)
+                    changed = True
+        if isinstance(st, ast.Try):
+            hs = []
+            chh = False
+            for h in st.handlers:
+                b2, ch = _tail_inline(repo, cls, module, h.body, log, depth)
+                if ch:
+                    h = copy.copy(h)
+                    h.body = b2
+                    chh = True
+                hs.append(h)
+            if chh:
+                st = copy.copy(st)
+                st.handlers = hs
+                changed = True
+        out.append(st)
+    return out, changed
+
+
 def inlined(repo, cls, fn, module=None, log=None):
     """copy of FunctionDef *fn* (a method of *cls*, or a function of *module*) with thin-helper calls inlined"""
     if not any(isinstance(n, ast.Call) for n in ast.walk(fn)):
@@ -148,9 +205,13 @@ def inlined(repo, cls, fn, module=None, log=None):
         st2 = inline_expr(repo, cls, module, st, log=log)
         changed = changed or (st2 is not st)
         body.append(st2)
+    body2, ch2 = _tail_inline(repo, cls, module, body, log)
+    if ch2:
+        body, changed = body2, True
     if not changed:
         return fn
     new.body = body
+    ast.fix_missing_locations(new)
     set_parents(new, getattr(fn, "_parent", None))
     return new
 
@@ -161,3 +222,30 @@ def set_parents(root, parent=None):
     for n in ast.walk(root):
         for ch in ast.iter_child_nodes(n):
             ch._parent = n
+
+
+def closure(repo, cls, fn, module=None, _seen=None):
+    """*fn* and the private helpers it calls (methods of its class reached as self._h(...) / Cls._h(...), private
+    functions of its module), transitively -- the unit a maintainer may spread one piece of logic over.
+    -> list of (owner class or None, FunctionDef)"""
+    seen = _seen if _seen is not None else {}
+    if id(fn) in seen:
+        return []
+    seen[id(fn)] = True
+    out = [(cls, fn)]
+    for n in ast.walk(fn):
+        if not isinstance(n, ast.Call):
+            continue
+        f = n.func
+        if isinstance(f, ast.Attribute) and isinstance(f.value, ast.Name) and f.attr.startswith("_") and not f.attr.startswith("__"):
+            owner = cls if f.value.id == "self" else (f.value.id if f.value.id in repo.classes else None)
+            if owner is None:
+                continue
+            dc, h = repo.resolve_method(owner, f.attr)
+            if h is not None:
+                out += closure(repo, dc, h, module=repo.classes[dc].module.name, _seen=seen)
+        elif isinstance(f, ast.Name) and f.id.startswith("_") and module is not None:
+            h = repo.module(module).functions.get(f.id)
+            if h is not None:
+                out += closure(repo, None, h, module=module, _seen=seen)
+    return out
